@@ -410,7 +410,7 @@ func structLeaf(sv engine.StructV, name string) engine.AbsVal {
 
 func returnsRestorer(fn *ssa.Function) bool {
 	res := fn.Signature.Results()
-	return res.Len() == 1 && namedOf(res.At(0).Type()) == pkgRfmt+".restorer"
+	return res.Len() == 1 && namedOf(res.At(0).Type()) == restorerName
 }
 
 // C11.c containment of user-method panics.
